@@ -161,6 +161,20 @@ impl Cli {
         self.stream = None;
     }
 
+    /// Abortive close: the peer sees a connection reset (RST) instead of an orderly end of stream, so its next write fails.
+    pub fn reset(&mut self) {
+        match &self.stream {
+            Some(Stream::Plain(s)) => {
+                let _ = s.set_linger(Some(Duration::ZERO));
+            }
+            Some(Stream::Tls(s)) => {
+                let _ = s.get_ref().0.set_linger(Some(Duration::ZERO));
+            }
+            None => {}
+        }
+        self.stream = None;
+    }
+
     pub fn is_open(&self) -> bool {
         self.stream.is_some()
     }
